@@ -2036,6 +2036,9 @@ class Recipe:
         if ('concentration' in kwargs) + ('total_quantity' in kwargs) + ('quantity' in kwargs) != 2:
             raise ValueError("Must specify two values out of concentration, quantity, and total quantity.")
 
+        if isinstance(solvent, Container) and solvent.name not in self.results:
+            raise ValueError(f"Solvent {solvent.name} has not been previously declared for use.")
+
         solute_names = ', '.join(substance.name for substance in solute) if isinstance(solute, Iterable) else solute.name
         if name is None:
             name = f"solution of {solute_names} in {solvent.name}"
@@ -2271,6 +2274,9 @@ class Recipe:
                 dest_name = dest.name
                 step.frm.append(None)
                 solute, solvent, kwargs = step.operands
+                if isinstance(solvent, Container):
+                    # containers can change while baking the recipe
+                    solvent = self.results[solvent.name]
 
                 solute_names = ', '.join([solute.name for solute in solute]) if isinstance(solute, Iterable) else solute.name
                 # kwargs should have two out of concentration, quantity, and total_quantity
